@@ -24,6 +24,8 @@ type C18Case struct {
 	Fail     bool
 	Verb     string // "" -q -v
 	OutFile  bool
+	// StaleOutFile: the -f file already exists (left by an earlier, longer report)
+	StaleOutFile bool `json:",omitempty"`
 }
 
 func genC18(t *rapid.T) *C18Case {
@@ -71,6 +73,7 @@ func genC18(t *rapid.T) *C18Case {
 	c.Fail = rapid.IntRange(0, 3).Draw(t, "fail") == 0
 	c.Verb = rapid.SampledFrom([]string{"", "-q", "-v"}).Draw(t, "verb")
 	c.OutFile = rapid.Bool().Draw(t, "f")
+	c.StaleOutFile = c.OutFile && rapid.Bool().Draw(t, "stalef")
 	return c
 }
 
@@ -139,6 +142,11 @@ func checkC18(c *C18Case, st *VStats) *VFailure {
 	}
 	if c.OutFile {
 		args = append(args, "-f", outFile)
+		if c.StaleOutFile {
+			// the out file is reused: it still holds an earlier, much longer report
+			writeFile(outFile, []byte(strings.Repeat("stale line of an earlier report => x : All Connections\n", 4000)))
+			st.Class("-f file already exists")
+		}
 	}
 	so, se, code := runCLI(args...)
 	desc := "k8snetpolicy " + strings.Join(args, " ")
@@ -155,8 +163,8 @@ func checkC18(c *C18Case, st *VStats) *VFailure {
 		}
 		if c.OutFile {
 			b, err := os.ReadFile(outFile)
-			if want == "" && c.Cmd == "diff" && err != nil {
-				// nothing to write for an empty diff
+			if want == "" && c.Cmd == "diff" && (err != nil || c.StaleOutFile) {
+				// nothing to write for an empty diff (the statement does not say whether an existing file is emptied)
 			} else if err != nil || string(b) != so {
 				return vfail("`%s`: the -f file differs from stdout (read error %v): %s", desc, err, firstDiff(so, string(b)))
 			}
